@@ -57,7 +57,11 @@ func (cw *c01World) start() {
 	cw.w = nw
 	evs := vpBaseEvents()
 	for _, o := range vpListAll(cw.k8s) {
-		evs = append(evs, upsertOf(o))
+		// the start-up listing reaches the handler as Create events through the registered watch predicates (a GatewayClass of
+		// another controller, for one, is never delivered)
+		if c01Filter(c01Kind(o)).Create(event.CreateEvent{Object: o}) {
+			evs = append(evs, upsertOf(o))
+		}
 	}
 	cw.delivered = nil
 	cw.record(evs)
@@ -278,6 +282,8 @@ func c01Histories(out *vu.Out, rng *vu.Rng, n int, focusGrants bool) {
 			touchTo int
 			// alone: the batch collected so far is handled first, so that this event starts a batch of its own
 			alone bool
+			// then: created right after the deletion of obj (a replacement of the object)
+			then client.Object
 		}
 		var pre, ops []op
 		for _, o := range objsA {
@@ -290,6 +296,11 @@ func c01Histories(out *vu.Out, rng *vu.Rng, n int, focusGrants bool) {
 		var later []op
 		for k, o := range mb {
 			if old, ok := ma[k]; !ok || !reflect.DeepEqual(old, o) {
+				// spec.controllerName of a GatewayClass is immutable: a class changes hands by being deleted and created again
+				if oc, isClass := old.(*gatewayv1.GatewayClass); ok && isClass && oc.Spec.ControllerName != o.(*gatewayv1.GatewayClass).Spec.ControllerName {
+					later = append(later, op{del: true, obj: old, then: o})
+					continue
+				}
 				later = append(later, op{del: false, obj: o})
 			}
 		}
@@ -485,6 +496,21 @@ func c01Histories(out *vu.Out, rng *vu.Rng, n int, focusGrants bool) {
 				flush()
 				humanOps = append(humanOps, "--- batch boundary")
 			}
+			upsert := func(obj client.Object) {
+				old, cur := apply(obj)
+				deliver := false
+				if old == nil {
+					deliver = f.Create(event.CreateEvent{Object: cur})
+				} else {
+					deliver = f.Update(event.UpdateEvent{ObjectOld: old, ObjectNew: cur})
+				}
+				if deliver {
+					batch = append(batch, upsertOf(cur))
+					humanOps = append(humanOps, "upsert "+c05Key(obj))
+				} else {
+					humanOps = append(humanOps, "(filtered) upsert "+c05Key(obj))
+				}
+			}
 			if o.touchTo > 0 {
 				for k := 0; k < 12; k++ {
 					cur := o.obj.DeepCopyObject().(client.Object)
@@ -513,20 +539,11 @@ func c01Histories(out *vu.Out, rng *vu.Rng, n int, focusGrants bool) {
 						flags = append(flags, "endpointslice-delete")
 					}
 				}
+				if o.then != nil {
+					upsert(o.then)
+				}
 			} else {
-				old, cur := apply(o.obj)
-				deliver := false
-				if old == nil {
-					deliver = f.Create(event.CreateEvent{Object: cur})
-				} else {
-					deliver = f.Update(event.UpdateEvent{ObjectOld: old, ObjectNew: cur})
-				}
-				if deliver {
-					batch = append(batch, upsertOf(cur))
-					humanOps = append(humanOps, "upsert "+c05Key(o.obj))
-				} else {
-					humanOps = append(humanOps, "(filtered) upsert "+c05Key(o.obj))
-				}
+				upsert(o.obj)
 			}
 			if r.Chance(1, 4) {
 				flush()
